@@ -495,8 +495,95 @@ pub fn units() -> Vec<Unit> {
             Fn("Otaa::handle_rx"),
         ],
     },
+    // C12 / C06: `Session::prepare_buffer` — the header of the uplink.  Abstract: frame encryption and MIC
+    // (`DataFrame::build_into` is a parameter `codec`), the radio buffer (`TxBufOps`), `next_lower_datarate`
+    // and the iterator pipeline of `clear_mac_commands(true)` (as in Gen.SessionFn / Gen.UplinkFn).
+    Unit {
+        module: "Gen.SessionTx",
+        file: "lorawan-device/src/mac/session.rs",
+        more_files: vec![
+            "lorawan-device/src/mac/mod.rs",
+            "lorawan-device/src/mac/uplink/mod.rs",
+            "lorawan-device/src/region/constants.rs",
+            "lorawan-encoding/src/creator.rs",
+            "lorawan-encoding/src/parser.rs",
+            "lorawan-encoding/src/types.rs",
+            "lorawan-encoding/src/packet_length.rs",
+        ],
+        imports: vec!["LoraVerif.Gen.Region"],
+        items: vec![
+            ExternEnum("DR"),
+            Const("ADR_ACK_LIMIT"),
+            Const("FOPTS_MAX_LEN"),
+            Alias("FcntUp", "u32"),
+            Alias("NonZeroU8", "u8"),
+            Struct("Configuration"),
+            Raw(SESSION_TX_RAW1),
+            ExternStructRaw("AES128", &[]),
+            ExternStructRaw("NwkSKey", &[]),
+            ExternStructRaw("AppSKey", &[]),
+            ExternStructRaw("DevAddr", &[]),
+            ExternStructRaw("DefaultCrypto", &[]),
+            ExternStructRaw("RegionCfg", &[]),
+            Alias("region::Configuration", "RegionCfg"),
+            ExternFn("next_lower_datarate", "next_lower_datarate", &[("region", "region::Configuration"), ("current", "DR")], "Option<DR>"),
+            ExternFn("NwkSKey::inner", "NwkSKey.inner", &[("self", "NwkSKey")], "AES128"),
+            ExternFn("AppSKey::inner", "AppSKey.inner", &[("self", "AppSKey")], "AES128"),
+            ExternFn("DefaultCrypto::new", "DefaultCrypto.new", &[("key", "AES128")], "DefaultCrypto"),
+            Struct("SendData"),
+            Enum("DataFrameType"),
+            EnumData("Payload"),
+            Struct("DataFrame"),
+            Raw(SESSION_TX_RAW2),
+            ExternStructRaw("RadioBuffer", &[]),
+            ExternFn("DataFrame::build_into", "codec.build_into", &[("self", "DataFrame"), ("buf", "[u8]"), ("nwk", "DefaultCrypto"), ("app", "Option<DefaultCrypto>")], "Result<[u8], Error>"),
+            ExternFnX("RadioBuffer::clear", "TxBufOps.clear", &[("self", "RadioBuffer")], "", &["self"], false),
+            ExternFnX("RadioBuffer::extend_from_slice", "TxBufOps.extend_from_slice", &[("self", "RadioBuffer"), ("buf", "[u8]")], "Result<(), ()>", &["self"], false),
+            Struct("Uplink"),
+            Raw("/-- the iterator pipeline of `clear_mac_commands(true)`: (queue, accumulator so far) ↦ accumulator -/\nopaque retained_pipeline : List Int → List Int → List Int\n"),
+            AbstractStmt("parse_uplink_mac_commands(", "retained_pipeline", &["self.pending", "data"], &["data"]),
+            Struct("Session"),
+            Fn("Session::prepare_buffer"),
+        ],
+    },
     ]
 }
+
+/// Lean text of the abstract part of `Gen.SessionTx`
+const SESSION_TX_RAW1: &str = r#"/-! Keys and addresses are opaque identities; a crypto context is the key it is bound to. -/
+structure AES128 where
+  id : Int
+  deriving DecidableEq, Repr
+structure NwkSKey where
+  inner : AES128
+  deriving DecidableEq, Repr
+structure AppSKey where
+  inner : AES128
+  deriving DecidableEq, Repr
+structure DevAddr where
+  id : Int
+  deriving DecidableEq, Repr
+structure DefaultCrypto where
+  new ::
+  key : AES128
+  deriving DecidableEq, Repr
+/-- what the translated method observes of `region::Configuration`: the result of
+`next_lower_datarate(region, dr)` (a loop over `region.get_datarate`; abstract here) -/
+structure RegionCfg where
+  next_lower : DR → Option DR
+def next_lower_datarate (region : RegionCfg) (current : DR) : Option DR := region.next_lower current
+"#;
+const SESSION_TX_RAW2: &str = r#"/-- frame encryption and MIC stay abstract: `DataFrame::build_into(buf, nwk, app)` is a parameter
+(`none` = `Err`) -/
+structure FrameCodec where
+  build_into : DataFrame → List Int → DefaultCrypto → Option DefaultCrypto → Option (List Int)
+variable (codec : FrameCodec)
+/-- what `prepare_buffer` calls on the radio buffer (`extend_from_slice`: the `Result` and the buffer) -/
+class TxBufOps (β : Type) where
+  clear : β → β
+  extend_from_slice : β → List Int → (Option Unit × β)
+variable {RadioBuffer : Type} [TxBufOps RadioBuffer]
+"#;
 
 /// Lean text of the abstract part of `Gen.OtaaFn`
 const OTAA_RAW: &str = r#"/-! The crypto and the region stay abstract.  Keys, addresses and nonces are opaque identities. -/
